@@ -88,10 +88,10 @@ def run(ck):
                        "exp(log_likelihood) = 1 within 1e-6)"]
     recs = []
     for C, D in ([(1, 1), (2, 1), (2, 2), (3, 2)] if quick else [(1, 1), (1, 2), (2, 1), (2, 2), (3, 1), (3, 2)]):
-        ms = machines(rng, C, D, 6 if quick else 20)
+        ms = machines(rng, C, D, 6 if quick else 10)
         rows = list(itertools.product(XV, repeat=D))
         batches = []
-        for _ in range(4 if quick else 12):
+        for _ in range(4 if quick else 8):
             n = rng.choice([1, 2, 3, 4])
             batches.append(tuple(rng.choice(rows) for _ in range(n)))
         recs += model(ck, "density-C%d-D%d" % (C, D), C, D, ms, batches, coverage=not quick)
@@ -107,8 +107,8 @@ def run(ck):
         seen.add(k)
         replay(ck, em, rec)
     quadrature(ck, em, rng, 6 if quick else 14)
-    tail_sweep(ck, em, rng, 6 if quick else 14)
-    rare_components(ck, em, rng, 6 if quick else 25)
+    tail_sweep(ck, em, rng, 6 if quick else 10)
+    rare_components(ck, em, rng, 6 if quick else 15)
 
 
 def build(em, m, history=False):
